@@ -76,8 +76,10 @@ Aspects(e) ==
 
 (* a byte-level decode of bytes that are NOT exactly one CBOR item (cut short, or followed by more bytes) is judged by C13 *)
 (* alone: the other properties speak about items                                                                        *)
+ProtTypes == MsgTypes \cup {"ProtectedHeader", "Header", "SuppPubInfo", "CoseKdfContext"}      \* the types that can hold a protected header
 AspectsAt(st, e) ==
-  IF e.ev = "decode" /\ e.api # "bstr" /\ Prop \notin {"", "C01", "C13"} /\ st.wire # <<>> /\ ~ReadToValue(st.wire[1]).ok /\ ~ReadToValue(st.wire[1]).gap
+  IF Prop = "C02" /\ e.ev = "encode" /\ st.mem.ty \notin ProtTypes THEN {}      \* C02 has nothing to say about a key or a claims set
+  ELSE IF e.ev = "decode" /\ e.api # "bstr" /\ Prop \notin {"", "C01", "C13"} /\ st.wire # <<>> /\ ~ReadToValue(st.wire[1]).ok /\ ~ReadToValue(st.wire[1]).gap
   THEN {} ELSE Aspects(e)
 
 (* the retained protected-header byte strings of a value, in a fixed traversal order *)
